@@ -5,6 +5,7 @@ package main
 // else is judged where it stands.
 
 import (
+	"strings"
 	"fmt"
 	"sort"
 
@@ -32,6 +33,11 @@ func (p *Prog) staticOnly(f *ssa.Function, entries map[*ssa.Function]bool) bool 
 	}
 	for _, e := range n.In {
 		if e.Site == nil || e.Site.Common().StaticCallee() != f {
+			return false
+		}
+		// called from a synthetic wrapper (the bound-method wrapper of a method value, n.once.Do(n.trim)): the real
+		// call site is wherever the method value ends up — not a static call we can judge arguments at
+		if e.Caller.Func != nil && strings.HasPrefix(e.Caller.Func.Synthetic, "bound method wrapper") {
 			return false
 		}
 		if _, isGo := e.Site.(*ssa.Go); isGo {
